@@ -410,7 +410,7 @@ func c16Partial(c *core.Ctx, r *core.Reporter) {
 		}
 		if v, ok := o.(*types.Var); ok && !v.IsField() && core.TypeName(v.Type()) == "Result" {
 			if !(s.worker.Pos() <= v.Pos() && v.Pos() <= s.worker.End()) && v.Pkg() == c.Pkg("").Types && v.Parent() != c.Pkg("").Types.Scope() {
-				outside = v.Name()
+				outside = core.N(v)
 			}
 		}
 		return true
